@@ -367,7 +367,10 @@ def quaternion_to_angle_axis(quaternion: torch.Tensor) -> torch.Tensor:
 
     sin_squared_theta: torch.Tensor = q1 * q1 + q2 * q2 + q3 * q3
 
-    sin_theta: torch.Tensor = torch.sqrt(sin_squared_theta)
+    # derivative of sqrt at zero is infinite, result for zero angle is not used (cf. k_neg below)
+    sin_theta: torch.Tensor = torch.sqrt(
+        torch.where(sin_squared_theta > 0.0, sin_squared_theta, torch.ones_like(sin_squared_theta))
+    )
     two_theta: torch.Tensor = 2.0 * torch.where(
         cos_theta < 0.0,
         torch.atan2(-sin_theta, -cos_theta),
